@@ -189,3 +189,14 @@ Example keywords_case_sensitive :
   parse_src true int32_lit (fun _ => true) "TRUE}}" = OAccept (EVar pos0 "true") /\
   parse_src true int32_lit (fun _ => true) "true}}" = OAccept (EBool pos0 true).
 Proof. split; vm_compute; reflexivity. Qed.
+
+(* positions across line breaks, a tab and a two-byte character, as observed on
+   the implementation (LexExpression + Parse); evaluated by the kernel, so the
+   newline handling of the extracted evaluator is cross-checked here *)
+Definition chr (n : nat) : string := String (ascii_of_nat n) EmptyString.
+Example multiline_positions :
+  run_c04 ("a" ++ chr 10 ++ "&& b" ++ chr 13 ++ chr 10 ++ "|| 'x" ++ chr 10 ++ "yé' ." ++ chr 9 ++ "c }}", []) =
+  [[10;2;0;1;1;1]; [10;18;2;2;1;2]; [10;2;5;2;4;1]; [10;19;8;3;1;2]; [10;3;11;3;4;7]; [10;10;19;4;5;1];
+   [10;2;21;4;7;1]; [10;1;23;4;9;2]; [11;25];
+   [20;12;2;12;1;1;0;1;1;1;97;1;5;2;4;1;98;7;1;99;6;11;3;4;5;120;10;121;195;169]]%N.
+Proof. vm_compute. reflexivity. Qed.
